@@ -49,6 +49,7 @@ def walk(B, vs, vo, rank_fn=None, ranks=None, max_steps=400, arg_map=None):
     bb = 0
     result = None
     steps = 0
+    rank_eq = [False]      # the path passed a rank comparison that answered Equal (what follows is the same-rank logic)
     while steps < max_steps:
         steps += 1
         blk = B.blocks[bb]
@@ -81,6 +82,8 @@ def walk(B, vs, vo, rank_fn=None, ranks=None, max_steps=400, arg_map=None):
                     val = ('int', inner[1])
                 elif inner is not None and inner[0] == 'int':
                     val = inner
+                elif inner is not None and inner[0] == 'enumc':
+                    val = ('int', inner[2])
             elif k == 'agg':
                 if rv['ak'] == 'tuple':
                     vals = []
@@ -89,6 +92,8 @@ def walk(B, vs, vo, rank_fn=None, ranks=None, max_steps=400, arg_map=None):
                     val = ('tuple', vals)
                 elif rv['ak'] == 'adt' and rv.get('adt') == 'core::cmp::Ordering':
                     val = ('ord', ORD[rv['var']])
+                elif rv['ak'] == 'adt' and not rv.get('ops') and 'vi' in rv:
+                    val = ('enumc', rv.get('adt'), rv['vi'])       # a fieldless variant of some enum (a rank written as an enum)
             if not pl.get('p'):
                 if pl['l'] == 0:
                     if val is not None and val[0] == 'ord':
@@ -105,7 +110,7 @@ def walk(B, vs, vo, rank_fn=None, ranks=None, max_steps=400, arg_map=None):
             continue
         if tk == 'ret':
             if result is not None:
-                return {'kind': 'const', 'value': result[1]}
+                return {'kind': 'const', 'value': result[1], 'rank_equal': rank_eq[0]}
             return {'kind': 'unknown', 'why': 'returned without a recognised value'}
         if tk == 'switch':
             d = t['d']
@@ -141,11 +146,20 @@ def walk(B, vs, vo, rank_fn=None, ranks=None, max_steps=400, arg_map=None):
                 if who is None:
                     return {'kind': 'unknown', 'why': 'rank call argument not recognised'}
                 val = ('rank', ranks.get(disc[who]))
+            elif g == 'core::intrinsics::discriminant_value' and av and av[0] is not None and av[0][0] in ('ptr', 'ref') and isinstance(av[0][1], tuple) and av[0][1][0] == 'enumc':
+                val = ('int', av[0][1][2])       # derived Ord / PartialOrd of a fieldless enum compare the declaration positions
+            elif g == 'core::cmp::Ord::cmp' and len(av) == 2 and all(a is not None and a[0] == 'ptr' and a[1] is not None and a[1][0] == 'int' and isinstance(a[1][1], int) for a in av):
+                a_, b_ = av[0][1][1], av[1][1][1]
+                val = ('ord', (a_ > b_) - (a_ < b_))
+                if a_ == b_:
+                    rank_eq[0] = True
             elif g == 'core::cmp::Ord::cmp' and len(av) == 2 and all(a is not None and a[0] == 'ptr' and a[1] is not None and a[1][0] == 'rank' for a in av):
                 a_, b_ = av[0][1][1], av[1][1][1]
                 if a_ is None or b_ is None:
                     return {'kind': 'unknown', 'why': 'rank unknown'}
                 val = ('ord', (a_ > b_) - (a_ < b_))
+                if a_ == b_:
+                    rank_eq[0] = True
             else:
                 names = [n for n in (g, r) if n]
                 return {'kind': 'compares', 'bb': bb, 'calls': names, 'args': av}
